@@ -151,6 +151,17 @@ def _sched_task_local(tree, repo):
     return "true"
 
 
+def _sched_positive_int(tree, node):
+    """`positive_int`: number = int(value); if number <= 0: raise argparse.ArgumentTypeError(...); return number"""
+    if not _sched_is_name(node, "positive_int"):
+        return False
+    fn = find_def(tree, "positive_int")
+    if fn is None:
+        return False
+    want = ast.parse("def positive_int(value):\n    number = int(value)\n    if number <= 0:\n        raise argparse.ArgumentTypeError(f\"invalid positive int value: {value!r}\")\n    return number\n").body[0]
+    return norm_dump(fn) == norm_dump(want)
+
+
 def _sched_max_workers_default(tree, repo):
     """cli.py: add_argument("--max-workers", type=int, default=<n>); codemodder.run passes argv.max_workers to the context;
     the context stores it unchanged."""
@@ -159,7 +170,9 @@ def _sched_max_workers_default(tree, repo):
         if isinstance(n, ast.Call) and isinstance(n.func, ast.Attribute) and n.func.attr == "add_argument" and n.args \
                 and isinstance(n.args[0], ast.Constant) and n.args[0].value == "--max-workers":
             kw = {k.arg: k.value for k in n.keywords}
-            if len(n.args) != 1 or not _sched_is_name(kw.get("type"), "int") or not isinstance(kw.get("default"), ast.Constant) \
+            # type=int, or the validating wrapper positive_int (int(value), rejecting value <= 0 as an argument error)
+            if len(n.args) != 1 or not (_sched_is_name(kw.get("type"), "int") or _sched_positive_int(tree, kw.get("type"))) \
+                    or not isinstance(kw.get("default"), ast.Constant) \
                     or not isinstance(kw["default"].value, int) or set(kw) - {"type", "default", "help"}:
                 raise Unrecognised("--max-workers is not declared with type=int and an integer default")
             if default is not None:
